@@ -12,7 +12,8 @@ Proof. exact plan_delete_sound. Qed.
 Print Assumptions C02_delete_sound.
 
 (* the managed set used for planning comes only from agentpack's own records: an accepted entry of
-   the root's manifest, or — only when no manifest entry is usable anywhere — the latest
+   the root's manifest, or — only when no root of the run has a usable manifest at all (a usable
+   manifest that lists nothing is a record too) — the latest
    deploy/rollback snapshot, and of that only what lies under a current root of the same target
    (snapshots are shared by all projects using one agentpack home); and it respects the target filter *)
 Theorem C02_managed_from_records : forall (w : world) (roots : list root) (flt : option str) (tp : tpath),
@@ -20,14 +21,14 @@ Theorem C02_managed_from_records : forall (w : world) (roots : list root) (flt :
   passes flt (fst tp) = true /\
   ((exists r es e, In r roots /\ read_manifest (files w) r = Some es /\ In e es /\
                    safe_rel (fst e) = true /\ tp = (rtarget r, join_rel (rpath r) (fst e))) \/
-   (load_managed (files w) roots = [] /\
+   ((forall r, In r roots -> read_manifest (files w) r = None) /\
     exists sn, latest_dr (snaps w) = Some sn /\ In sn (snaps w) /\ kind_dr (sn_kind sn) = true /\
                In tp (snap_managed sn) /\ under_roots roots tp = true)).
 Proof.
   intros w roots flt tp H. apply in_managed_for_plan in H as [Hp [[r [Hr Hin]]|[Hl [sn [Hs [Hin Hu]]]]]].
   - split; [exact Hp|]. left. apply in_root_managed in Hin as [es [e (H1 & H2 & H3 & H4)]].
     exists r, es, e. auto.
-  - split; [exact Hp|]. right. split; [exact Hl|]. exists sn. destruct (latest_dr_in _ _ Hs). auto.
+  - split; [exact Hp|]. right. split; [exact (any_usable_false_none _ _ Hl)|]. exists sn. destruct (latest_dr_in _ _ Hs). auto.
 Qed.
 Print Assumptions C02_managed_from_records.
 
